@@ -18,13 +18,17 @@ Local Open Scope char_scope.
 
 (** [fx2]: C08-F2 repaired (a779db8); [fx3]: C08-F3 repaired (72ba5d4); [fxq]: C15-F1 repaired
     (41fd1db: QueryParamsRemover also works on a query that does not parse; it only
-    concerns the query of the upstream URL, which no C08 theorem talks about) *)
-Record fixes := { fx2 : bool; fx3 : bool; fxq : bool }.
-Definition pinned : fixes := {| fx2 := false; fx3 := false; fxq := false |}.
+    concerns the query of the upstream URL, which no C08 theorem talks about);
+    [fx5]: C08-F5 repaired (6d0a3af: captured values are decoded piece by piece around the
+    encoded slashes, without a place-holder) *)
+Record fixes := { fx2 : bool; fx3 : bool; fxq : bool; fx5 : bool }.
+Definition pinned : fixes := {| fx2 := false; fx3 := false; fxq := false; fx5 := false |}.
 (** the tree as it is now *)
-Definition repaired : fixes := {| fx2 := true; fx3 := true; fxq := true |}.
+Definition repaired : fixes := {| fx2 := true; fx3 := true; fxq := true; fx5 := true |}.
+(** the tree before 6d0a3af (kept to document finding C08-F5) *)
+Definition before_F5 : fixes := {| fx2 := true; fx3 := true; fxq := true; fx5 := false |}.
 (** the tree after a779db8 alone *)
-Definition fixed_F2 : fixes := {| fx2 := true; fx3 := false; fxq := false |}.
+Definition fixed_F2 : fixes := {| fx2 := true; fx3 := false; fxq := false; fx5 := false |}.
 
 Inductive setting := Off | On | NoDecode.
 
@@ -109,11 +113,49 @@ Fixpoint protect (ci : bool) (s : string) : string :=
 
 Definition unprotect (s : string) : string := replace_all slash_ph "%2F" s.
 
+(** rule_impl.go [unescapeExceptSlashes] (since 6d0a3af): the value is cut at the
+    encoded slashes (either spelling; the code first rewrites %2f to %2F and then
+    splits at %2F — occurrences of a three-byte pattern starting with '%' cannot
+    overlap, so this is one left-to-right pass), every piece is decoded, and the
+    pieces are joined with %2F again; "" if a piece does not decode. *)
+Fixpoint ues_pieces (s : string) : string * list string :=
+  match s with
+  | EmptyString => (EmptyString, [])
+  | String c r =>
+    match r with
+    | String a (String b r') =>
+      if is_enc_slash true c a b then let '(h, t) := ues_pieces r' in (EmptyString, h :: t)
+      else let '(h, t) := ues_pieces r in (String c h, t)
+    | _ => let '(h, t) := ues_pieces r in (String c h, t)
+    end
+  end.
+
+Fixpoint unescape_all (l : list string) : option (list string) :=
+  match l with
+  | [] => Some []
+  | s :: r => match unescape s, unescape_all r with
+              | Some d, Some dr => Some (d :: dr)
+              | _, _ => None
+              end
+  end.
+
+Definition unescape_except_slashes (v : string) : string :=
+  match unescape_all (fst (ues_pieces v) :: snd (ues_pieces v)) with
+  | Some l => join_with "%2F" l
+  | None => EmptyString
+  end.
+
+(** "decode everything but the encoded slash" as the code does it: with the
+    place-holder before 6d0a3af, piece by piece since *)
+Definition decode_except_slash (fx : fixes) (v : string) : string :=
+  if fx5 fx then unescape_except_slashes v
+  else unprotect (unescape_or_empty (protect (fx2 fx) v)).
+
 (** rule_impl.go [unescape(value, handling)] *)
 Definition unescape_capture (fx : fixes) (st : setting) (v : string) : string :=
   match st with
   | On => unescape_or_empty v
-  | _ => unprotect (unescape_or_empty (protect (fx2 fx) v))
+  | _ => decode_except_slash fx v
   end.
 
 (** * matching *)
@@ -134,7 +176,7 @@ Definition param_value (fx : fixes) (st : setting) (rawpath v : string) : option
        | Off => if has_enc_slash (fx2 fx) rawpath then None
                 else Some (if fx3 fx then unescape_or_empty v else v)
        | On => Some (unescape_or_empty v)
-       | NoDecode => Some (unprotect (unescape_or_empty (protect (fx2 fx) v)))
+       | NoDecode => Some (decode_except_slash fx v)
        end.
 
 Definition param_ok (fx : fixes) (st : setting) (rawpath : string) (cs : caps) (p : string * string) : bool :=
